@@ -27,6 +27,7 @@ THEOREMS = {
         "Dawgs.C16.Props.nemap_inv",
         "Dawgs.C16.Props.nemap_refines_map",
         "Dawgs.C16.Props.c16_seq",
+        "Dawgs.C16.Props.combined_stats_exact",
     ],
 }
 
@@ -74,8 +75,10 @@ SPEC = {
     "rule": "sequential cases = exhaustive op sequences (len<=4 quick / <=5 thorough) over a 7-9 letter alphabet x capacities x {sieve,nemap}, plus random "
             "histories (5-65 ops, keys ~ capacity+1..3) from splitmix64(VERIF_SEED); a case is non-trivial when, after a put, it observes both "
             "a hit and a miss (eviction, refusal or delete took effect); distinct = distinct op-line sequences (sha1); concurrent cases (suite c16conc): 2-4 goroutines x 2-4 ops on 2-3 keys against the real cache, history with invoke/return stamps "
-            "checked for linearizability by the Lean monitor, non-trivial when two operations overlap in real time",
-    "expected_branches": ["branch.get_hit", "branch.get_miss", "branch.sieve.delete_at_hand", "branch.sieve.hand_nonnil", "branch.sieve.put_evict"],
+            "checked for linearizability by the Lean monitor (incl. final size statistic = observable entries), non-trivial when two operations overlap in real time; "
+            "contention bursts (one put, then 4-8 goroutines issue the same operation on the same key behind a barrier); `comb` = Stats().Combined(peer.Stats()) readings "
+            "interleaved with ordinary use (all length-4 sequences over a 5-letter alphabet containing comb, plus 1 in 11 random ops)",
+    "expected_branches": ["branch.get_hit", "branch.get_miss", "branch.sieve.delete_at_hand", "branch.sieve.hand_nonnil", "branch.sieve.put_evict", "branch.stats_combined"],
     "trusted_base": ["container/list, Go map, sync.RWMutex, sync/atomic semantics (modelled)",
                      "verif-tagged read-only hook cache/verif_on.go (VerifDump) used to compare internal queue/hand state"],
     "assumptions": ["keys/values are small non-negative ints in the tie (the Go code is generic over K,V)",
